@@ -63,7 +63,7 @@ m = dict(
  setup_cmd='mkdir -p bin && clang++ $(llvm-config-14 --cxxflags) -fno-rtti tools/irdump.cc -o bin/irdump /usr/lib/llvm-14/lib/libLLVM-14.so',
  hooks=dict(guard='BR_VERIF_HOOKS', enable='checks compile every unit to LLVM IR with -DBR_VERIF_HOOKS (declassification marks only; never linked or run)',
             baseline_off_cmd='make -C /repo -j16 >/dev/null && cd /repo/test/x509 && ../../build/testx509',
-            source_commits=['da220fc', 'ce84b7a'], add_only=True),
+            source_commits=['da220fc', 'ce84b7a', '06f0fa1', 'e2ac630'], add_only=True),
  engines=[
   dict(name='IRF', path='tools/irdump.cc, sa/irf.py, sa/build.py', serves_properties=sorted(CLAIMED), kind_free_text='LLVM-IR facts (CFG, SSA, debug-info layouts) for every unit of the real build'),
   dict(name='T0', path='sa/t0.py', serves_properties=['C01', 'C03', 'C04', 'C05', 'C19'], kind_free_text='decoder + analyses for the T0 bytecode embedded in the generated interpreters'),
